@@ -73,7 +73,30 @@ def lifecycleFailures (r : Run) (real : Toks) : List String :=
         before.any (fun e => evKind e == "ctor" && !(r.startPlugs.any (fun c => e == "eP+" ++ toString c)))
      then ["other-plugs-exist-during-test-start"] else [])
 
+/-- `C08 ABORT <nclasses> # <real obs>`: an operator abort was the fault. The lifecycle contract on the real observation:
+    constructor at most once per class, tearDown exactly once per constructed instance, nothing but tearDowns and
+    callbacks after the first tearDown (no phase body that was not asked to terminate is still running), the outcome is ABORTED or the
+    run had already ended. -/
+def handleAbort (ts : Toks) : String :=
+  match ts with
+  | nT :: "#" :: real =>
+    let n := nT.toNat?.getD 0
+    -- a body that was asked to terminate is abandoned by design (join_or_die stops waiting once the kill was issued):
+    -- the moment its ThreadTerminationError unwinds it is not "a phase still running"
+    let evs := real.filter (fun e => e.startsWith "e" && !(e.startsWith "ee" && e.endsWith ":killed"))
+    let cnt (pre : String) (c : Nat) := (evs.filter (· == pre ++ toString c)).length
+    let fails : List String :=
+      ((List.range n).flatMap (fun c =>
+        (if cnt "eP+" c ≤ 1 then [] else ["plug-constructed-more-than-once"]) ++
+        (if cnt "eP-" c == cnt "eP+" c then [] else ["teardown-not-exactly-once-per-instance"]))) ++
+      (if okAfterTearToks evs then [] else ["teardown-before-last-phase-ended-or-after-callbacks"]) ++
+      (if real.contains "O:DEADLOCK" then ["deadlock"] else []) ++
+      (if real.contains "X:ret:1" == real.contains "O:PASS" then [] else ["return-value-not-iff-pass"])
+    reply true fails.eraseDups.isEmpty (if fails.isEmpty then "ok" else ",".intercalate fails.eraseDups)
+  | _ => reply false false "parse-error"
+
 def handle (ts : Toks) : String :=
+  if ts.head? == some "ABORT" then handleAbort (ts.drop 1) else
   let (inp, real) := splitAt "#" ts
   match run inp with
   | some ((cfg, r), []) =>
